@@ -204,10 +204,20 @@ func c29(r *core.Run) {
 				if rx == nil {
 					return true
 				}
+				// the map the call works on: selectors stripped, locals that merely name a sub-map followed to their
+				// definition (`dst := result.PrimaryMap`), stopping at the fresh result and at the input
 				root := rx
-				for {
-					if s, ok := ast.Unparen(root).(*ast.SelectorExpr); ok {
+				for i := 0; i < 8; i++ {
+					root = ast.Unparen(root)
+					if s, ok := root.(*ast.SelectorExpr); ok {
 						root = s.X
+						continue
+					}
+					if o := core.ObjOf(info, root); o != nil && (o == fresh || o == input) {
+						break
+					}
+					if d := resolveLocal(info, fl.Body, root); d != root {
+						root = d
 						continue
 					}
 					break
